@@ -370,6 +370,16 @@ func genJournal(r *rng, o genOpts) Journal {
 			t.Accrual = &Accrual{iv, dateStr(s), dateStr(e), accrualAcc}
 		}
 		j = append(j, t)
+		if t.Accrual == nil && r.chance(15) {
+			// the exact reverse booking on the same or a later day: positions return to an earlier
+			// level, often exactly zero (a position that is closed out, a commodity that is fully sold;
+			// seeded changes C01-closeout-carrying-value and C20-stale-liquidated-commodity need this)
+			rv := Dir{Kind: 'T', Date: dateStr(dt.AddDate(0, 0, r.intn(o.days/2+1))), Desc: "Storno " + t.Desc}
+			for _, b := range t.Bookings {
+				rv.Bookings = append(rv.Bookings, Booking{b.Debit, b.Credit, b.Qty, b.Com})
+			}
+			j = append(j, rv)
+		}
 	}
 	if o.assertions {
 		j = append(j, genAssertions(r, j, accrualAcc)...)
